@@ -305,6 +305,10 @@ def _judge(spec, b, out) -> dict:
             continue
         last_i = len(rows) - 1
         lastrow, lastrole, _ = rows[last_i]
+        if len(data) == 1:
+            bump("one-data-row-pages")
+            if pi < n_pages - 1:
+                bump("one-data-row-pages-followed-by-pages")
         # clause 3
         if pi < n_pages - 1:
             bump("c3-edges")
@@ -457,6 +461,8 @@ def plan(run):
         "the four settings x a 2-page anchor set; per-cell user-border matrices on interior rows of one-page documents; header variants "
         "(auto header, two header rows, pageby_header=False); exactly one of rtf_page.border_last / rtf_body.border_last = '' with distinct own "
         "border_bottom on table-rendered footnote/source x the 162 cells x sizes (x strategies), each document encoded twice and both outputs judged; "
+        "pages with exactly one data row (first / middle / last page; page_by new_page=True with pageby_row='column' and group sizes [1,3] [2,1,2] [3,1] [1,1,2]; "
+        "plain tables with a one-row tail page) under per-column 1 x ncol user borders, each document encoded twice and both outputs judged; "
         "table-rendered footnote / source with blank texts ' ' / '  ' (each alone, both, next to a paragraph one) x placements x sizes; "
         "2- and 3-section documents, distinct user styles per section, sections with / without headers (clauses 1, 2 and clause 5 inside sections and at section joints). "
         "non-trivial = >= 2 pages or a table-rendered footnote/source closes the table; distinct = distinct spec")
@@ -573,6 +579,24 @@ def plan(run):
                         em.append(table_spec(fn, src, pf, ps, hm, strat, "2", a, "scalar", **more))
     run.layer("one-empty-closing-style-encoded-twice", "mc.props.c07:eval_case", em, chunk=80, total=len(em))
 
+    # pages holding exactly ONE data row, also in the middle of the document, under per-column (1 x ncol) user borders that
+    # span every displayed column (no column removed): page_by with new_page=True / pageby_row="column" and group sizes
+    # with a one-row group first, in the middle and last; plain tables whose tail page has one row.  Every document is
+    # encoded twice and both outputs are judged (a boundary border written back into the caller's 1 x ncol vector shows
+    # on every row of the later pages and of the next encode).
+    one = []
+    anchors5 = ((None, None), ("table", "para"), ("para", "table"), ("para", None), ("table", "table"))
+    cells = [c for c in core_cells() if (not quick) or (c[2] == c[3] and (c[0], c[1]) in anchors5)]
+    a = assignment(rots[0])
+    for groups in ([0, 1, 1, 1], [0, 0, 1, 2, 2], [0, 0, 0, 1], [0, 1, 2, 2]):
+        for fn, src, pf, ps, hm in cells:
+            one.append(table_spec(fn, src, pf, ps, hm, "page_by", "1", a, "percol", size=(len(groups), 40),
+                                  page_by=[groups], new_page=True, pageby_row="column", _encodes=2))
+    for n in ((5, 7, 9) if quick else (5, 6, 7, 8, 9, 10)):
+        for fn, src, pf, ps, hm in cells:
+            one.append(table_spec(fn, src, pf, ps, hm, "plain", "2", a, "percol", size=(n, 6), _encodes=2))
+    run.layer("one-row-pages-per-column-borders-encoded-twice", "mc.props.c07:eval_case", one, chunk=40, total=len(one))
+
     # blank-but-non-empty texts (" ", "  ") for table-rendered footnote / source: the blank row is rendered and is then
     # the last table row of its page; the closing clauses hold on whatever IS the last table row
     bl = []
@@ -621,7 +645,7 @@ def plan(run):
                  "plain:pages=3", "page_by:pages=3", "subline_by:pages=3",
                  "doc-closing-row=data", "doc-closing-row=footnote_table", "doc-closing-row=source_table",
                  "page-closing-row=data", "page-closing-row=footnote_table", "page-closing-row=source_table",
-                 "c1-excluded-page_by-without-header", "multi-c5-edges", "multi-c5-joint-top-edges", "multi-c5-joint-bottom-edges",
+                 "c1-excluded-page_by-without-header", "one-data-row-pages", "one-data-row-pages-followed-by-pages", "multi-c5-edges", "multi-c5-joint-top-edges", "multi-c5-joint-bottom-edges",
                  "c2-empty-page-border_last", "c3-empty-body-border_last",
                  "repeated-encodes-judged"):
         if not run.cnt.get(need):
